@@ -379,6 +379,8 @@ class CallMixin:
                 if info is None:
                     raise Unsupported(f"modifies unknown field {key}")
                 key, ty = info
+                if ty == OPQ:
+                    continue
                 self.heap_array(key, ty)
                 ctx.heap[key] = z3.Const(ctx.fresh_name("H_" + key), z3.ArraySort(z3.IntSort(), sort_of(ty)))
                 for k2 in [k for k in ctx.field_cells if k[0] == key]:
@@ -410,7 +412,11 @@ class CallMixin:
             else:
                 v = env.get(m)
                 if isinstance(v, Cell):
-                    self.mutate(v, f"call to {ct.func}")
+                    sp, ctx.spec = ctx.spec, False
+                    try:
+                        self.mutate(v, f"call to {ct.func}")     # frame accounting of the caller
+                    finally:
+                        ctx.spec = sp
                     ty = v.sym.ty if v.sym is not None else self.symbolise(v)
                     v.sym = SV(ty, z3.Const(ctx.fresh_name("hv_" + m), sort_of(ty)))
                     ctx.assume_type_inv(v, ty)
